@@ -99,6 +99,7 @@ class MemWriter:
         self.closed = False
         self.ev = asyncio.Event()
         self.loop = loop
+        self.stall_ev = None
 
     def write(self, d):
         MemWriter._seq += 1
@@ -107,7 +108,13 @@ class MemWriter:
         self.ev.set()
 
     async def drain(self):
-        await asyncio.sleep(0)
+        # a slow reader: while `stall_ev` is set to an (unset) Event the peer's
+        # drain() blocks, which keeps its command executing (the server gives
+        # up after 2 s of *virtual* time and closes the connection)
+        if self.stall_ev is not None:
+            await self.stall_ev.wait()
+        else:
+            await asyncio.sleep(0)
 
     def is_closing(self):
         return self.closed
